@@ -515,3 +515,72 @@ Proof.
   exists pending_rhs_witness_f, pending_rhs_witness_u, pending_rhs_witness_w.
   vm_compute. repeat split.
 Qed.
+
+(* ------------------------------------------------------------------ scene-time check
+   (CompiledRequirement.falsifiedByInner): discarding the scene is sound, and the combined
+   outcome accepts exactly the satisfying traces *)
+Theorem run_site_scene_reject_sound f b s0 w : early_fragment f = true ->
+  run_site b f (s0 :: w) = SRejectScene -> forall w', fltl f (s0 :: w') 0 = false.
+Proof.
+  intros He H w'. unfold run_site in H.
+  destruct (b && is_BF (verdict f [s0])) eqn:E.
+  - apply andb_true_iff in E. destruct E as [_ E]. apply is_BF_true in E.
+    apply (early_reject_sound f [s0] He); [discriminate | exact E].
+  - destruct (run f (s0 :: w)); discriminate.
+Qed.
+
+Theorem run_site_accept_iff f b tr : early_fragment f = true -> tr <> [] ->
+  (run_site b f tr = SAccept <-> fltl f tr 0 = true).
+Proof.
+  intros He Hne. destruct tr as [|s0 w]; [congruence|]. unfold run_site.
+  destruct (b && is_BF (verdict f [s0])) eqn:E.
+  - apply andb_true_iff in E. destruct E as [_ E]. apply is_BF_true in E.
+    pose proof (early_reject_sound f [s0] He ltac:(discriminate) E w) as Hf. simpl in Hf.
+    split; [discriminate | congruence].
+  - rewrite <- (run_accept_iff f (s0 :: w) He Hne).
+    destruct (run f (s0 :: w)); split; congruence.
+Qed.
+
+(* the scene-time check never changes the outcome of a trace that the run would accept, and a
+   scene it discards would have been rejected by the run at step 0 anyway *)
+Theorem run_site_scene_reject_is_step0 f s0 w :
+  run_site true f (s0 :: w) = SRejectScene -> run f (s0 :: w) = Reject 0.
+Proof.
+  unfold run_site, run. simpl. destruct (is_BF (verdict f [s0])) eqn:E; simpl.
+  - reflexivity.
+  - destruct (run_from f [s0] w (verdict f [s0])); discriminate.
+Qed.
+
+Theorem run_site_no_check f tr :
+  run_site false f tr = match run f tr with Accept => SAccept | Reject t => SReject t end.
+Proof. destruct tr; reflexivity. Qed.
+
+(* ------------------------------------------------------------------ dualities on the
+   specification side: the finite-trace semantics used as the reference has the usual laws *)
+Lemma fltl_always_dual p tr i :
+  fltl (Always p) tr i = fltl (Not (Eventually (Not p))) tr i.
+Proof.
+  simpl. rewrite negb_existsb. apply forallb_ext'. intros x. now rewrite negb_involutive.
+Qed.
+
+Lemma fltl_eventually_until p tr i :
+  fltl (Eventually p) tr i = fltl (Until (Implies p p) p) tr i.
+Proof.
+  simpl. apply existsb_ext'. intros k.
+  assert (H : forallb (fun j => implb (fltl p tr j) (fltl p tr j)) (seq i (k - i)) = true).
+  { apply forallb_forall. intros x _. destruct (fltl p tr x); reflexivity. }
+  rewrite H. now rewrite andb_true_r.
+Qed.
+
+Lemma fltl_implies_or p q tr i :
+  fltl (Implies p q) tr i = fltl (Or (Not p) q) tr i.
+Proof. simpl. destruct (fltl p tr i), (fltl q tr i); reflexivity. Qed.
+
+(* the monitor agrees on the dual forms as well (by construction of AlwaysMonitor) *)
+Lemma mon_always_dual p tr i :
+  mon (Always p) tr i = mon (Not (Eventually (Not p))) tr i.
+Proof. reflexivity. Qed.
+
+Lemma mon_implies_or p q tr i :
+  mon (Implies p q) tr i = mon (Or (Not p) q) tr i.
+Proof. reflexivity. Qed.
